@@ -7,7 +7,7 @@ func init() {
 		Pkgs:    regs,
 		Lenient: regs,
 		Stages: []stage{
-			{Name: "checkdigits", Harness: `^H_C13_(Luhn|DE|IT|FR|FR_SIREN|PL|GR|AT|BE|CH|NL_Digits|NL_Format|PT|PL_SingleDigit|IT_SingleDigit|CH_SingleDigit|FR_SingleDigit|BR|IN|ES_Personal|ES_Org|NormalizeGeneric|CH_Normalize|FR_Normalize|GB|GB_Branch|GB_Special|MX|MX_Normalize|AE)$`},
+			{Name: "checkdigits", Harness: `^H_C13_(Luhn|DE|IT|FR|FR_SIREN|PL|GR|AT|BE|CH|NL_Digits|NL_Format|PT|PL_SingleDigit|IT_SingleDigit|CH_SingleDigit|FR_SingleDigit|BR|IN|ES_Personal|ES_Org|NormalizeGeneric|CH_Normalize|FR_Normalize|GR_Normalize|IN_Normalize|GB|GB_Branch|GB_Special|MX|MX_Normalize|AE)$`},
 			{Name: "checkdigits-thorough", Harness: `^H_C13_(CO|NL|DE_SingleDigit|AT_SingleDigit|ES_SingleDigit)$`, ThoroughOnly: true, BudgetS: 150},
 		},
 		Functions: []string{"regimes/common.ComputeLuhnCheckDigit", "regimes/de.validateTaxCode+validateTaxCodeChecksum", "regimes/it.validateTaxCode", "regimes/fr.validateVATTaxCode+calculateVATCheckDigit+validateSIRENTaxCode",
@@ -18,10 +18,10 @@ func init() {
 		Stubs: []string{"regexp matching: NFA built with regexp/syntax from the pattern string given to regexp.MustCompile in the package initialiser", "regexp FindStringSubmatch / SubexpNames on symbolic strings: for anchored patterns whose pieces all have a fixed width the group offsets are computed from the pattern", "math.Mod/Floor on integer-valued floats; float64 division through the C05 float model",
 			"fmt.Sprintf (%02d, NL%sB%s): Go model", "errors.New executed; fmt.Errorf opaque"},
 		Bounds: map[string][]string{
-			"quick":    {"candidate code: every ASCII string (bytes 0..127, symbolic) at the national length and at length -1/+1 (BE: both admitted lengths and +-1), regimes DE IT FR PL GR AT BE CH NL PT BR IN GB (9 and 12 digits, GD/HA) MX (RFC format: no check digit exists in the regime) AE (15-digit format) + Luhn; ES: nine-character codes of the personal kind (DNI / NIE: accepted iff the letter rule holds, the never-issued all-zero DNI left open) and of the organisation kind (accepted only with a matching control digit or letter; every code valid under the strict official rule accepted)", "single-digit 2-safety: every position x every pair of codes (IT, FR, PL, CH)", "normalisation: tax.NormalizeIdentity on every ASCII string of 1..4 bytes (6 thorough): idempotent, insensitive to an inserted separator, to letter case and to a leading country prefix, digits kept; regimes/ch.normalizeTaxIdentity on a valid UID with every suffix in every letter case (symbolic) and separators; regimes/fr.normalizeTaxIdentity on every nine-character code over [0-9A-Z] not starting with FR, bare or (quick: one, thorough: eight) decorated spellings; regimes/mx.NormalizeTaxCode on every ASCII string of 1..4 bytes: idempotent, keeps exactly the upper-cased letters, digits and ampersands in order"},
+			"quick":    {"candidate code: every ASCII string (bytes 0..127, symbolic) at the national length and at length -1/+1 (BE: both admitted lengths and +-1), regimes DE IT FR PL GR AT BE CH NL PT BR IN GB (9 and 12 digits, GD/HA) MX (RFC format: no check digit exists in the regime) AE (15-digit format) + Luhn; ES: nine-character codes of the personal kind (DNI / NIE: accepted iff the letter rule holds, the never-issued all-zero DNI left open) and of the organisation kind (accepted only with a matching control digit or letter; every code valid under the strict official rule accepted)", "single-digit 2-safety: every position x every pair of codes (IT, FR, PL, CH)", "normalisation: tax.NormalizeIdentity on every ASCII string of 1..4 bytes (6 thorough): idempotent, insensitive to an inserted separator, to letter case and to a leading country prefix, digits kept; regimes/ch.normalizeTaxIdentity on a valid UID with every suffix in every letter case (symbolic) and separators; regimes/gr.normalizeTaxIdentity and regimes/in.normalizeTaxIdentity on every code of 1..3 characters with every spelling of the country prefix (GR: under either country code); regimes/fr.normalizeTaxIdentity on every nine-character code over [0-9A-Z] not starting with FR, bare or (quick: one, thorough: eight) decorated spellings; regimes/mx.NormalizeTaxCode on every ASCII string of 1..4 bytes: idempotent, keeps exactly the upper-cased letters, digits and ampersands in order"},
 			"thorough": {"quick plus CO and the single-digit 2-safety of DE, AT and the Spanish DNI"},
 		},
-		Outside:     []string{"GB: the reference is HMRC's mod 97 / mod 9755 rule plus the stem ranges of the library the regime file cites (there is no official publication of those ranges), two-digit check values 97..99 are taken as invalid as the implementation does; MX: no check digit is validated by the regime, only the format is compared; other regimes without a check digit", "codes shorter/longer by more than one byte than the national length", "regime-specific normalisers other than the Swiss, Mexican and French ones (French: nine-character codes only)", "non-ASCII bytes in candidate codes", "dispatch from tax.Identity.Validate through reflection-driven validation.ValidateStruct"},
+		Outside:     []string{"GB: the reference is HMRC's mod 97 / mod 9755 rule plus the stem ranges of the library the regime file cites (there is no official publication of those ranges), two-digit check values 97..99 are taken as invalid as the implementation does; MX: no check digit is validated by the regime, only the format is compared; other regimes without a check digit", "codes shorter/longer by more than one byte than the national length", "regime-specific normalisers other than the Swiss, Mexican, Greek, Indian and French ones (French: nine-character codes only)", "non-ASCII bytes in candidate codes", "dispatch from tax.Identity.Validate through reflection-driven validation.ValidateStruct"},
 		Assumptions: []string{"reference algorithms written from the sources cited in each regime file (national schemes)", "go/ssa faithful; z3 sound"},
 	})
 }
